@@ -725,8 +725,20 @@ func checkC12(c CaseC12) (*vkit.Failure, vkit.Meta) {
 	var data []byte
 	var merr, uerr error
 	var out any
+	retained := false
 	f := vkit.Guard("panic", func() *vkit.Failure {
 		data, merr = Marshal(in.Interface())
+		if merr == nil {
+			// the bytes are stored (a checkpoint store keeps the slice) while other values are serialised: the stored
+			// bytes must stay what they were
+			snapshot := append([]byte(nil), data...)
+			for _, other := range []any{"x", map[string]any{"k": 1, "l": "m"}, in.Interface(), []any{1, "two", 3.0}} {
+				_, _ = Marshal(other)
+			}
+			if string(snapshot) != string(data) {
+				retained = true
+			}
+		}
 		if merr != nil {
 			return nil
 		}
@@ -741,6 +753,9 @@ func checkC12(c CaseC12) (*vkit.Failure, vkit.Meta) {
 			f.Sig = "ptr-to-container"
 		}
 		return f, m
+	}
+	if retained {
+		return &vkit.Failure{Kind: "stored-bytes-changed", Sig: "stored-bytes-changed", Msg: "the bytes returned by Marshal changed while other values were being marshalled (a stored checkpoint would not read back what was written)"}, m
 	}
 	if merr != nil || uerr != nil {
 		m.Labels = append(m.Labels, "rejected-loudly")
